@@ -5,6 +5,7 @@ import Dia.StreamSeq
 import Dia.StreamAll
 import Dia.Fixed
 import Dia.ClientPolite
+import Dia.ClientMulti
 import Dia.Tls
 import Dia.Accept
 /-! Line-protocol interpreter (DESIGN.md Appendix A): one operation per input line, one answer line
@@ -216,6 +217,108 @@ def ctraceLine (evs answers : String) : String :=
     "accept " ++ (if res.isEmpty then "-" else String.intercalate "," res) ++ " | labels=" ++ toString r.labels ++
       " polite=" ++ bit r.polite ++ " reader=" ++ readerTag r.s.reader ++ " closed=" ++ bit r.s.closed ++
       " wire=" ++ toString r.s.wire.length ++ " | -"
+
+/-! ### the same for a client object with several connections (`Dia.Cm`) -/
+
+structure MCState where
+  s : Cm.St := Cm.init
+  answers : List (List (Nat × Nat)) := []   -- per connection: the peer's messages still to come, in stream order
+  labels : Nat := 0
+
+def MCState.apply (r : MCState) (l : Cm.Label) (what : String) : Except String MCState :=
+  match Cm.step r.s l with
+  | some s' => .ok { r with s := s', labels := r.labels + 1 }
+  | none => .error ("step not enabled in the model: " ++ what)
+
+def MCState.applyAll (r : MCState) (ls : List Cm.Label) (what : String) : Except String MCState :=
+  ls.foldl (fun acc l => match acc with | .ok r => r.apply l what | .error e => .error e) (.ok r)
+
+/-- `name@c` -> (name, c) -/
+def splitAt? (t : String) : Option (String × Nat) :=
+  match t.splitOn "@" with
+  | [a, c] => c.toNat?.map fun c => (a, c)
+  | _ => none
+
+def replayEventM (r : MCState) (ev : String) : Except String MCState :=
+  match ev.splitOn ":" with
+  | ["sb", _] => .ok r
+  | ["conn"] => r.apply .connect ev
+  | ["reg", h] =>
+    match h.toNat? with
+    | some h =>
+      if r.s.nC = 0 then .error "registered a waiter although no connection was ever attached" else
+      if r.s.closed then .error "registered a waiter although the table is closed" else r.apply (.sendBegin h) ev
+    | none => .error "bad event"
+  | ["refused", h] =>
+    match h.toNat? with
+    | some h => if r.s.closed then r.apply (.sendBegin h) ev else .error "send refused although the table is open"
+    | none => .error "bad event"
+  | ["ret", _, "ok"] => r.apply .sendReturn ev
+  | ["ret", _, "err"] => if r.s.send = .idle then .ok r else r.apply .sendFail ev
+  | [t, x] =>
+    match splitAt? t with
+    | some ("wr", c) =>
+      if c + 1 ≠ r.s.nC then .error ("request octets went to connection " ++ toString c ++ " although the latest is " ++ toString (r.s.nC - 1))
+      else r.apply .write ev
+    | some ("rd", _) => let _ := x; .ok r
+    | _ => .error ("unknown event " ++ ev)
+  | [t, h, flag] =>
+    match splitAt? t, h.toNat? with
+    | some ("rm", c), some h =>
+      match r.answers[c]? with
+      | some ((ah, uid) :: rest) =>
+        if ah ≠ h then .error ("reader " ++ toString c ++ " decoded id " ++ toString h ++ " but its peer's next message has id " ++ toString ah) else
+        let cached := (r.s.cache h).isSome
+        if cached ≠ (flag == "1") then .error ("table lookup for id " ++ toString h ++ " found=" ++ flag ++
+          " but the model's table says " ++ toString cached) else
+        ({ r with answers := r.answers.set c rest }).applyAll
+          [.peerEmit c (.msg ⟨h, uid⟩), .readerDecode c, .readerRemove c] ev
+      | _ => .error ("reader " ++ toString c ++ " decoded a message its peer did not send")
+    | some ("dl", c), some _ =>
+      if flag == "1" then r.apply (.readerDeliver c) ev
+      else .error "delivery to a future that was already dropped (outside the model's quantifier)"
+    | _, _ => .error ("unknown event " ++ ev)
+  | [t] =>
+    match splitAt? t with
+    | some ("stop", c) =>
+      match r.s.reader c with
+      | .stopping => r.apply (.readerStop c) ev
+      | .running => r.applyAll [.peerEmit c .bad, .readerDecode c, .readerStop c] ev
+      | st => .error ("reader " ++ toString c ++ " stopped while the model's reader is " ++ readerTag st)
+    | _ => .error ("unknown event " ++ ev)
+  | _ => .error ("unknown event " ++ ev)
+
+def replayAllM : List String → Nat → MCState → Except (Nat × String) MCState
+  | [], _, r => .ok r
+  | ev :: rest, k, r =>
+    match replayEventM r ev with
+    | .ok r' => replayAllM rest (k+1) r'
+    | .error e => .error (k, e)
+
+def statusOfM (s : Cm.St) (w : Nat) : String :=
+  match s.status w with
+  | .pending => "pending"
+  | .got m => "got:" ++ toString m.hbh ++ ":" ++ toString m.uid
+  | .dropped => "err"
+
+def ctracemLine (evs answers : String) : String :=
+  let per : List (List (Nat × Nat)) :=
+    if answers = "-" then [] else
+    (answers.splitOn ";").map fun part =>
+      if part = "" || part = "-" then [] else
+      (part.splitOn ",").filterMap fun t =>
+        match t.splitOn ":" with
+        | [h, u] => match h.toNat?, u.toNat? with | some h, some u => some (h, u) | _, _ => none
+        | _ => none
+  let events := if evs = "-" then [] else evs.splitOn ","
+  match replayAllM events 0 { answers := per } with
+  | .error (k, e) => "reject@" ++ toString k ++ " " ++ e
+  | .ok r =>
+    let res := (List.range r.s.nW).map (statusOfM r.s)
+    let anyStopped := (List.range r.s.nC).any fun c => r.s.reader c == Cl.Reader.stopped
+    "accept " ++ (if res.isEmpty then "-" else String.intercalate "," res) ++ " | labels=" ++ toString r.labels ++
+      " readers=" ++ String.intercalate "." ((List.range r.s.nC).map fun c => readerTag (r.s.reader c)) ++
+      " closed=" ++ bit r.s.closed ++ " anystopped=" ++ bit anyStopped ++ " | -"
 
 /-! ### real-socket scenarios: predictions of the TLS table (C13) and of the listener model (C10) -/
 
@@ -493,6 +596,7 @@ def step (s : DState) (line : String) : DState × String :=
   | "tlsrude" :: _ => (s, "refused clear=0 conns=1 | refused | -")   -- a failed handshake is a refusal, whatever `verify` says
   | ["amode", _] => plain s "."                -- how the application waits for its futures is invisible to the model
   | ["rmode", _] => plain s "."                -- how the reader hands out the octets is invisible to the model
+  | ["ctracem", evs, ans] => (s, ctracemLine evs ans)
   | ["cliswitch", _] => plain s "first=err reader1_stopped=1"
   | ["tlsq", cells] =>
     -- cells of the table one after the other in one process: each cell's prediction is the cell's own (no state is carried)
